@@ -194,6 +194,9 @@ pub struct Spec {
     pub watchdog_s: u64,
     /// Is a confirmed (isolated) hang a violation of this property?
     pub hang_is_violation: bool,
+    /// The outcome of a case depends on thread scheduling (C20): a failure is re-run alone up
+    /// to six times and is reported even if none of the re-runs fails again.
+    pub scheduling_dependent: bool,
     /// Maximum number of worker processes.
     pub max_workers: usize,
     pub case: fn(&mut Case) -> CaseResult,
@@ -234,6 +237,7 @@ impl Spec {
             alloc_limit: 0,
             watchdog_s: 120,
             hang_is_violation: false,
+            scheduling_dependent: false,
             max_workers: 16,
             case,
             fixed: None,
